@@ -243,7 +243,7 @@ UNIT = {
     "desc": "postsolve steps SPxMainSM<R>::*PS::execute (spxmainsm.hpp): basis cardinality delta, index-shift undo, frame, "
             "exact complementary facts; real bodies at R = double",
     "rmode": "double (IEEE, bit-precise); tolerance comparisons EQrel/isZero/GErel/... = arbitrary booleans",
-    "defines": {"CAP": "4", "DIM": "16"},
+    "defines": {"CAP": "4", "DIM": "8"},
     "defines_small": {"CAP": "2", "DIM": "4"},
     "flags": ["--bounds-check", "--pointer-check"],
     "timeout_s": 280, "mem_gb": 8,
